@@ -132,6 +132,49 @@ fn main() {
                         let _ = std::fs::write(&marker, tag.to_string());
                         let bytes = malformed(&kind, &mut rng, if stage == 1 { &other_frame } else { &enc_frame });
                         let c2 = &ctx.with_timeout(time::Duration::seconds(20));
+                        // malformed REQUEST BODIES: the harness runs a multiplexer over an authenticated connection, accepts the streams the
+                        // node's RPC server opens for that capability and answers each with a malformed body
+                        if case["stage"] == "rpcbody" {
+                            use zksync_consensus_network::verif::{Mux, MuxConfig, StreamQueue};
+                            let (srv, body) = kind.split_once(':').unwrap();
+                            let cap: u64 = match srv { "push_validator_addrs" => 1, "ping" => 2, "push_block_store_state" => 3, "get_block" => 4, _ => 10 };
+                            let fresh_gossip = gv::test_config(rng.gen());
+                            let Ok(d) = gv::dial(c2, addr, &fresh_gossip, genesis, &node_gossip_key).await else {
+                                rep.lock().unwrap().count("honest_prefix_failed");
+                                continue;
+                            };
+                            stage_reached.insert("rpcbody".into());
+                            let bytes: Vec<u8> = match body {
+                                "body_oversize" => u32::MAX.to_le_bytes().to_vec(),
+                                "body_truncated" => { let mut v = 200u32.to_le_bytes().to_vec(); v.extend([1u8, 2, 3]); v }
+                                "body_empty" => vec![],
+                                "body_wrong_message" => frame(&[0x2a, 5, 0x08, 0, 0x10, 0x01, 0x2a, 0]),
+                                _ => { let n = rng.gen_range(1..200); let junk: Vec<u8> = (0..n).map(|_| rng.gen()).collect(); frame(&junk) }
+                            };
+                            let sctx = ctx.with_timeout(time::Duration::milliseconds(250));
+                            let q = StreamQueue::new(&sctx, 5, zksync_concurrency::limiter::Rate::INF);
+                            let mux = Mux { cfg: MuxConfig { read_frame_size: 16 << 10, read_buffer_size: 160 << 10, read_frame_count: 100, write_frame_size: 16 << 10 }, accept: [(cap, q.clone())].into_iter().collect(), connect: Default::default() };
+                            let sent = Arc::new(Mutex::new(0u64));
+                            let sent2 = sent.clone();
+                            let _: Result<(), ctx::Error> = scope::run!(&sctx, |ctx, s3| async move {
+                                s3.spawn_bg(async move {
+                                    let _ = d.run_mux(ctx, mux).await;
+                                    Ok(())
+                                });
+                                // answer every stream the node's server opens with the malformed body
+                                for _ in 0..3 {
+                                    let Ok(mut st) = q.open(ctx).await else { break };
+                                    let _ = st.write_all(ctx, &bytes).await;
+                                    let _ = st.flush(ctx).await;
+                                    st.close_write();
+                                    let _ = st.read(ctx, 64).await;
+                                    *sent2.lock().unwrap() += 1;
+                                }
+                                Ok(())
+                            })
+                            .await;
+                            rep.lock().unwrap().add("rpc_bodies_sent", *sent.lock().unwrap());
+                        } else
                         // RPC-level inputs: a scripted gossip peer with an extreme announcement (the fetcher of the node consults it)
                         if case["stage"] == "rpc" {
                             use zksync_consensus_engine::{BlockStoreState, Last};
